@@ -68,6 +68,17 @@ theorem chunkSlices_flatten (N : List Entry → Nat) (hpos : ∀ r, r ≠ [] →
       rw [chunksG]
       simp only [h0, dite_false, List.flatten_cons, ih, List.take_append_drop]
 
+/-- the same relative to an invariant of the remaining entries (progress is only needed where it holds) -/
+theorem chunkSlices_flatten_S (N : List Entry → Nat) (S : List Entry → Prop) (hdrop : ∀ r n, S r → S (r.drop n))
+    (hpos : ∀ r, r ≠ [] → S r → N r ≠ 0) (es : List Entry) (hS : S es) :
+    (chunksG (fun r => r.take (N r)) N es).flatten = es := by
+  induction es using chunksG_induction N with
+  | hnil => rw [chunksG]; rfl
+  | hstop e rest h0 => exact absurd h0 (hpos _ (by simp) hS)
+  | hstep e rest h0 ih =>
+      rw [chunksG]
+      simp only [h0, dite_false, List.flatten_cons, ih (hdrop _ _ hS), List.take_append_drop]
+
 theorem chunksG_counts (N : List Entry → Nat) (es : List Entry) :
     slices es (chunksG N N es) = chunksG (fun r => r.take (N r)) N es := by
   induction es using chunksG_induction N with
